@@ -263,7 +263,13 @@ class Engine(ABCMeta):
             # the parameters into the recognized data type class.
             equivalent_data_type = registry.equivalents.get(type(data_type))
             if equivalent_data_type is not None:
-                return type(equivalent_data_type)(**data_type.__dict__)
+                # private attributes are state derived from the parameters
+                params = {
+                    key: value
+                    for key, value in data_type.__dict__.items()
+                    if not key.startswith("_")
+                }
+                return type(equivalent_data_type)(**params)
 
         try:
             return registry.dispatch(data_type)
